@@ -357,7 +357,16 @@ func c01PageCase(ctx *core.Ctx, d interface {
 		head := fmt.Sprintf("%s %d %s %d %d %d", col.ptype, col.flen, col.enc, v1, maxRep, maxDef)
 		reqs = append(reqs, fmt.Sprintf("c01.enc %s %s %s %s", head, core.JoinInts(reps), core.JoinInts(defs), vs))
 		reqs = append(reqs, fmt.Sprintf("c01.dec %s %d %s %s %s", head, p.numValues, core.Hex(p.reps), core.Hex(p.defs), core.Hex(p.vals)))
-		reqs = append(reqs, fmt.Sprintf("c01.decgo %s %d %s %s %s", head, p.numValues, core.Hex(p.reps), core.Hex(p.defs), core.Hex(p.vals)))
+		// the mirror of the BYTE_STREAM_SPLIT FIXED_LEN_BYTE_ARRAY decoder writes its destination by index
+		// (quadratic on lists): large pages of that one codec go through the SPEC reader only
+		goOp := "c01.decgo"
+		if col.ptype == "FIXED_LEN_BYTE_ARRAY" && col.enc == "BYTE_STREAM_SPLIT" && len(p.vals) > 4096 {
+			goOp = "c01.dec"
+			ctx.Hist("pages-go-mirror", "skipped: large BYTE_STREAM_SPLIT FLBA page")
+		} else {
+			ctx.Hist("pages-go-mirror", "compared")
+		}
+		reqs = append(reqs, fmt.Sprintf("%s %s %d %s %s %s", goOp, head, p.numValues, core.Hex(p.reps), core.Hex(p.defs), core.Hex(p.vals)))
 	}
 	if off != len(stream) {
 		ctx.Fail("L1", "pages value-count "+sig, fmt.Sprintf("page headers announce %d values, %d written", off, len(stream)), detail(nil))
